@@ -12,6 +12,16 @@ equal its own in-process result or raise.  Driver 'xagg': an aggregate that
 works in process but whose merge_states / get_result of a merged state raises:
 the caller gets an error or exactly one (correct) aggregate; "neither" is decided
 from state (iterator finished, merge thread ended, result queue empty).
+
+Driver 'failing_shard': a sharded run in which one shard cannot complete (an
+application error on one record, or a record that takes longer than the call
+deadline with retries switched off): whatever the iterator raises, the aggregate
+channel (result_queue) is inspected once the merge thread has ended: an aggregate
+may only be delivered when it covers every shard.  The same inspection is done
+in every other scenario whose run ends with an error (concurrent, xagg).  In the
+'concurrent' driver the two pools may also differ in one client setting
+(call_timeout / heartbeat_threshold_secs / iterate_batch_size) over their shared
+servers.
 """
 
 from __future__ import annotations
@@ -32,26 +42,40 @@ RULE = (
     'second dataset shifted by 10^12, always aggregating) over W=1-3 servers, pool memberships with >= 1 '
     'shared server or one pool used by two threads, K=1-6 shards each, second start delayed 0-50 ms, '
     'preceded by each run alone; xagg = aggregate without merge_states / failing merge_states / failing '
-    'get_result of a merged state, sharded or interleaved. Non-trivial = (W >= 2 or K >= 2) and >= 2 '
+    'get_result of a merged state, sharded or interleaved; two-pool concurrent cases: the second pool may '
+    'differ in call_timeout / heartbeat_threshold_secs / iterate_batch_size; failing_shard = K=2-5 shards of '
+    '2-5 records over W=1-3 workers, one record raises an application error or stalls 0.6 s against a '
+    '0.25 s call deadline with retry_failures=False. Non-trivial = (W >= 2 or K >= 2) and >= 2 '
     'elements (concurrent: the generator calls of the two runs alternated); distinct = hash of '
     '(spec, driver, W, K, sizes)')
 ASSUMPTIONS = [
     'transport stand-in semantics (see C14); no faults are injected; time is not dilated',
     'records are pre-batched lists, no re-batching operator is used, so the multiset of output batches does not depend on the partition',
     'a case that does not complete within 120 s (typical: < 1 s) is retried once; two consecutive watchdog expiries of the same case are reported as a hang',
-    'concurrent: both pools are built with the same worker configuration (they share the Worker singletons of the common addresses), default max_parallelism=1; the two runs are independent pipelines; a run that raises is accepted; a watchdog expiry is inconclusive',
+    'concurrent: the pools are built with the same worker configuration (they share the Worker singletons of the common addresses) or, when the case says so, the second pool differs in exactly one of call_timeout / heartbeat_threshold_secs / iterate_batch_size (max_parallelism stays 1 for every client: a worker serves one generator at a time); the two runs are independent pipelines; a run that raises is accepted; a watchdog expiry is inconclusive',
+    'after a run that raised, the aggregate channel is read once the merge thread has ended (state, not time); a delivered AggregateResult counts as well-formed when its agg_result is non-empty; it is accepted only if it equals the aggregate of the complete dataset',
+    'failing_shard: the failing / stalling record exists exactly once, so at least its shard never completes: any well-formed aggregate delivered is partial; deadline variant: the record stalls 0.6 s against a 0.25 s call deadline and retry_failures=False, a spurious deadline of another call (load) fails the run just as well',
     'xagg: the aggregate is legal for in-process runs (merge_states is documented as required for distributed implementations only); a watchdog expiry alone is inconclusive',
 ]
 REQUIRED = ['sharded_cases', 'interleaved_cases', 'strict_cnt_checks', 'batches_compared',
             'agg_results_compared', 'transport_calls', 'concurrent_cases', 'concurrent_two_pool_cases',
             'concurrent_one_pool_cases', 'concurrent_runs_overlapped', 'concurrent_runs_compared',
-            'merge_failing_cases', 'merge_failing_sharded_cases', 'merge_threads_observed']
+            'merge_failing_cases', 'merge_failing_sharded_cases', 'merge_threads_observed',
+            'concurrent_differing_settings_cases', 'failing_shard_cases', 'failing_shard_runs_raised',
+            'aggregate_channel_inspected_after_error']
 # Mechanism keys of the audited root causes.
 # WorkerPool.iterate never acquires / reserves the workers it schedules shards on: two
 # runs send init_generator to the same worker, the second replaces the first generator
 K_CONC = 'concurrent-sharded-runs-share-unacquired-workers'
 # sharded_pipelines_as_iterator merges in an unsupervised daemon thread
 K_MERGE = 'sharded-merge-error-swallowed-no-result'
+# Ownership lock and capacity bookkeeping live on the Worker OBJECT, and two pools that
+# differ in any client setting get two Worker objects for one server address
+K_OWN_ADDR = 'ownership-keyed-by-worker-object-not-address'
+# sharded_pipelines_as_iterator merges whatever shard states arrived when iterate() gives
+# up (stop marker put in a finally, no expected count): the iterator raises AND a
+# well-formed aggregate of the finished shards is delivered
+K_PARTIAL = 'partial-aggregate-delivered-after-failed-shard'
 CHUNK_TIMEOUT_S = {'quick': 400, 'thorough': 3000}
 
 
@@ -184,7 +208,7 @@ def run_sharded(spec, W, K, ibs, delay_rng):
     cwork.stop_servers(servers)
 
 
-def run_interleaved(spec, W, buf, with_pool, define=None):
+def run_interleaved(spec, W, buf, with_pool, define=None, box=None):
   from vlib import c16lib, cwork
   from ml_metrics._src.chainables import courier_server, courier_worker, orchestrate
   servers = cwork.start_servers(W, 'c16i') if with_pool else []
@@ -203,6 +227,8 @@ def run_interleaved(spec, W, buf, with_pool, define=None):
     }
     with orchestrate.run_pipeline_interleaved(
         pipeline, master_server=master, resources=resources) as runner:
+      if box is not None:
+        box['runner'] = runner      # (to look at what was delivered when the run raises)
       outs = list(iter(runner.result_queue))
     returned = list(runner.result_queue.returned)
     # Each aggregating stage reports its own aggregate through its own queue;
@@ -408,6 +434,52 @@ def _judge_sharded(res, ref_outs, ref_agg, other_range=None):
   return out
 
 
+SETTING_KEYS = ('call_timeout', 'heartbeat_threshold_secs', 'iterate_batch_size')
+
+
+def add_differing_setting(case, rng, force=False):
+  """Two-pool cases: the second pool differs from the first in exactly one setting."""
+  if case['one_pool'] or not (force or rng.random() < 0.5):
+    return case
+  return dict(case, setting=rng.choice(SETTING_KEYS))
+
+
+def _pool_kwargs(case, r):
+  kw = {'call_timeout': 60, 'iterate_batch_size': case['ibs']}
+  key = case.get('setting') if r == 1 else None
+  if key == 'call_timeout':
+    kw['call_timeout'] = 600
+  elif key == 'heartbeat_threshold_secs':
+    kw['heartbeat_threshold_secs'] = 400
+  elif key == 'iterate_batch_size':
+    kw['iterate_batch_size'] = case['ibs'] + 1
+  return kw
+
+
+def inspect_after_error(ctx, case, aggs, ref_agg, where, sharded=True, extra=None):
+  """A run raised: what did the aggregate channel deliver?  (C16, last sentence.)"""
+  from ml_metrics._src.chainables import transform
+  ctx.count('aggregate_channel_inspected_after_error')
+  formed = [a for a in aggs if isinstance(a, transform.AggregateResult) and a.agg_result]
+  empty = [a for a in aggs if isinstance(a, transform.AggregateResult) and not a.agg_result]
+  if empty:
+    ctx.observe('empty_aggregate_result_delivered_after_error', where)
+  partial = [a for a in formed if a.agg_result != ref_agg]
+  if formed and not partial:
+    ctx.count('complete_aggregate_delivered_although_the_run_raised')
+  if not partial:
+    return False
+  detail = {'delivered_after_the_run_raised': repr(partial[0].agg_result)[:200],
+            'aggregate_of_the_complete_dataset': repr(ref_agg)[:200],
+            'n_delivered': len(aggs)}
+  detail.update(extra or {})
+  # Input class: a SHARDED run whose iterator raised (for whatever reason): the merge
+  # of the states that did arrive is the one code path of sharded_pipelines_as_iterator.
+  ctx.violation('partial_aggregate_delivered_after_error', case, detail,
+                mechanism=K_PARTIAL if sharded else f'{where}:aggregate-delivered-after-error')
+  return True
+
+
 def run_concurrent_case(ctx, case):
   import threading
   from vlib import c16conc, c16lib, cwork
@@ -417,13 +489,14 @@ def run_concurrent_case(ctx, case):
   box = {}
 
   def go():
+    inits = c16conc.InitWatch().__enter__()     # before the servers bind their handlers
     servers = cwork.start_servers(W, 'c16c')
     try:
       with c16conc.CallLog() as calls, c16conc.ThreadWatch() as watch:
-        mk = lambda idx: courier_worker.WorkerPool(
-            [servers[i].address for i in idx], call_timeout=60, iterate_batch_size=case['ibs'])
-        pool_a = mk(case['members'][0])
-        pool_b = pool_a if case['one_pool'] else mk(case['members'][1])
+        mk = lambda idx, r: courier_worker.WorkerPool(
+            [servers[i].address for i in idx], **_pool_kwargs(case, r))
+        pool_a = mk(case['members'][0], 0)
+        pool_b = pool_a if case['one_pool'] else mk(case['members'][1], 1)
         pools = [pool_a, pool_b]
         for p in pools:
           p.wait_until_alive(deadline_secs=60, minimum_num_workers=len(p.all_workers))
@@ -435,6 +508,7 @@ def run_concurrent_case(ctx, case):
         box['solo'] = [c16conc.sharded_run(pools[r], c16lib.define_pipeline, specs[r], K[r], watch)
                        for r in range(2)]
         calls.clear()
+        inits.clear()
         results = [None, None]
 
         def one(r):
@@ -451,20 +525,25 @@ def run_concurrent_case(ctx, case):
         box['alive'] = [t.is_alive() for t in ts]
         box['results'] = results
         box['replaced'] = calls.replaced_while_in_use()
+        box['preempted'] = sorted(set(inits.preempted))
         box['overlapped'] = calls.interleaved()
         box['acquired'] = [len(p.acquired_workers) for p in pools]
     finally:
+      inits.__exit__()
       cwork.stop_servers(servers)
 
   finished, _, exc = cwork.run_with_watchdog(go, 240)
   ctx.count('concurrent_cases')
   ctx.count('concurrent_one_pool_cases' if case['one_pool'] else 'concurrent_two_pool_cases')
+  differing = bool(case.get('setting'))
+  if differing:
+    ctx.count('concurrent_differing_settings_cases')
   overlapped = bool(box.get('overlapped'))
   ctx.case(('concurrent', case), overlapped and min(sp['n'] for sp in specs) >= 2)
   if not finished or exc is not None or any(box.get('alive', [True])):
     ctx.inconclusive_case(f'concurrent case did not complete: {exc!r}'[:200], case)
     return
-  if not box['shared_objects']:
+  if not box['shared_objects'] and not differing:
     ctx.inconclusive_case('the two pools do not share the Worker objects', case)
     return
   in_other = [lambda v: v >= c16conc.OFFSET, lambda v: v < c16conc.OFFSET]
@@ -484,11 +563,18 @@ def run_concurrent_case(ctx, case):
     ctx.count('concurrent_runs_overlapped')
   if box['replaced']:
     ctx.count('generator_replaced_while_its_run_was_reading', len(box['replaced']))
+  if box['preempted']:
+    ctx.count('init_generator_found_an_unexhausted_generator', len(box['preempted']))
   for r in range(2):
     res = box['results'][r]
     if res['error'] is not None:
       ctx.count('concurrent_runs_raised')       # accepted: the caller was told
       ctx.observe('concurrent_run_raised', repr(res['error'])[:160])
+      if res['gave_up_waiting']:
+        ctx.inconclusive_case('concurrent run raised, its merge thread is still alive', case)
+      else:
+        inspect_after_error(ctx, case, res['aggs'], refs[r][1], 'concurrent-sharded',
+                            extra={'run': r, 'error': repr(res['error'])[:160]})
       continue
     ctx.count('concurrent_runs_compared')
     ctx.count('batches_compared', len(res['outs']))
@@ -499,10 +585,20 @@ def run_concurrent_case(ctx, case):
       # Audited root cause, decided from the observed calls: a run initialised its
       # generator on a worker, the other run initialised one on the same worker, and the
       # first run went on asking that worker for batches.
-      mech = K_CONC if box['replaced'] else f'concurrent-sharded:{kind}'
+      # ... classified by what the generator put in: pools with the same settings (they
+      # share the Worker objects) or pools differing in one client setting.
+      # Evidence that the two runs had a generator open on one worker at the same time:
+      # the call pattern above, or (server side) an init_generator that found the
+      # installed generator unexhausted (its reader is then retried or reads the new one).
+      mech = f'concurrent-sharded:{kind}'
+      if box['replaced'] or box['preempted']:
+        mech = K_OWN_ADDR if differing else K_CONC
       ctx.violation('concurrent_run_' + kind, case,
                     {'run': r, 'detail': detail, 'no_error_raised': True,
                      'workers_whose_generator_was_replaced_while_read': box['replaced'][:4],
+                     'workers_initialised_while_their_generator_was_unexhausted': box['preempted'][:4],
+                     'setting_in_which_the_second_pool_differs': case.get('setting'),
+                     'pools_share_the_worker_objects': box['shared_objects'],
                      'workers_acquired_by_the_pools_afterwards': box['acquired']},
                     mechanism=mech)
   if any(box['acquired']):
@@ -544,14 +640,18 @@ def run_xagg_case(ctx, case):
   ctx.count('merge_failing_cases')
   ctx.case(('xagg', case), spec['n'] >= 2 and (case['W'] >= 2 or case.get('K', 1) >= 2))
   if case['via'] == 'interleaved':
+    ibox = {}
     finished, res, exc = cwork.run_with_watchdog(
         lambda: run_interleaved(spec, case['W'], case['buf'], case['with_pool'],
-                                define=c16conc.define_pipeline_x), 120)
+                                define=c16conc.define_pipeline_x, box=ibox), 120)
     if not finished:
       ctx.inconclusive_case('interleaved run with a merge-failing aggregate: watchdog', case)
       return
     if exc is not None:
       ctx.count('merge_error_reached_caller')
+      if ibox.get('runner') is not None:
+        inspect_after_error(ctx, case, list(ibox['runner'].result_queue.returned), ref_agg,
+                            'interleaved-xagg', sharded=False, extra={'error': repr(exc)[:160]})
       return
     outs, aggs, _ = res
     finals = [a for a in aggs if isinstance(a, transform.AggregateResult)]
@@ -590,6 +690,11 @@ def run_xagg_case(ctx, case):
     ctx.count('merge_threads_observed')
   if res['error'] is not None:
     ctx.count('merge_error_reached_caller')
+    if res['gave_up_waiting']:
+      ctx.inconclusive_case('the run raised, its merge thread is still alive', case)
+    else:
+      inspect_after_error(ctx, case, res['aggs'], ref_agg, 'sharded-xagg',
+                          extra={'error': repr(res['error'])[:160]})
     return
   finals = [a for a in res['aggs'] if isinstance(a, transform.AggregateResult)]
   state = {'iterator_finished_without_error': True, 'batches_delivered': len(res['outs']),
@@ -617,6 +722,84 @@ def run_xagg_case(ctx, case):
     ctx.count('merge_failing_cases_with_one_correct_aggregate')
 
 
+# ---------------------------------------------------------------------------
+# a sharded run in which one shard cannot complete
+# ---------------------------------------------------------------------------
+STALL_S, STALL_DEADLINE_S = 0.6, 0.25
+
+
+def gen_failing_shard_case(rng):
+  rec = rng.randint(1, 4)
+  K = rng.randint(2, 5)
+  n = rec * K * rng.randint(2, 5)
+  a, b = rng.randint(1, 3), rng.randint(0, 5)
+  bad = a * rng.randrange(n) + b          # one value of the dataset, after the first operator
+  kind = rng.choice(['app_error', 'app_error', 'deadline_no_retry'])
+  ops = [['affine', {'a': a, 'b': b}]]
+  if kind == 'app_error':
+    ops.append(['fail_on', {'value': bad}])
+  else:
+    ops.append(['stall_on', {'value': bad, 'delay': STALL_S}])
+  if rng.random() < 0.4:
+    ops.append(['square'])
+  spec = {'n': n, 'rec': rec, 'ops': ops, 'agg': rng.choice(['sum', 'sum', 'collect']),
+          'fused': rng.random() < 0.6, 'num_threads': 0}
+  return {'driver': 'failing_shard', 'kind': kind, 'spec': spec, 'W': rng.randint(1, 3), 'K': K,
+          'ibs': rng.randint(1, 4)}
+
+
+def run_failing_shard_case(ctx, case):
+  from vlib import c16conc, c16lib, cwork
+  from ml_metrics._src.chainables import courier_worker
+  spec, kind = case['spec'], case['kind']
+  ref_outs, ref_agg = c16lib.reference(spec)      # of the complete dataset (nothing fails)
+  box = {}
+
+  def go():
+    servers = cwork.start_servers(case['W'], 'c16f')
+    try:
+      with c16conc.ThreadWatch() as watch:
+        pool = courier_worker.WorkerPool(
+            [s.address for s in servers], iterate_batch_size=case['ibs'],
+            call_timeout=STALL_DEADLINE_S if kind == 'deadline_no_retry' else 60)
+        pool.wait_until_alive(deadline_secs=60, minimum_num_workers=case['W'])
+        kw = {'retry_failures': False} if kind == 'deadline_no_retry' else {}
+        box['res'] = c16conc.sharded_run(pool, c16lib.define_pipeline, spec, case['K'], watch, **kw)
+    finally:
+      cwork.stop_servers(servers, join_s=1.0)
+
+  finished, _, exc = cwork.run_with_watchdog(go, 120)
+  ctx.count('failing_shard_cases')
+  ctx.case(('failing_shard', case), True)
+  if not finished or exc is not None or 'res' not in box:
+    ctx.inconclusive_case(f'failing_shard case did not complete: {exc!r}'[:200], case)
+    return
+  res = box['res']
+  if res['gave_up_waiting']:
+    ctx.inconclusive_case('failing_shard: the merge thread is still alive', case)
+    return
+  want = set(_canon_batches(ref_outs))
+  phantom = [b for b in _canon_batches(res['outs']) if b not in want]
+  if phantom:
+    ctx.violation('output_multiset_differs', case, {'phantom': phantom[:5]},
+                  mechanism='failing-shard:phantom-batches')
+  if res['error'] is None:
+    # in process this pipeline raises / a call ran into its deadline without retries
+    ctx.violation('failed_shard_not_reported', case,
+                  {'n_outs': len(res['outs']), 'n_of_complete_run': len(ref_outs),
+                   'result_queue': repr(res['aggs'])[:200]},
+                  mechanism='failing-shard:no-error-raised')
+    return
+  ctx.count('failing_shard_runs_raised')
+  fired = inspect_after_error(
+      ctx, case, res['aggs'], ref_agg, 'failing-shard',
+      extra={'error': f'{type(res["error"]).__name__}: {res["error"]}'[:160],
+             'batches_delivered_before_the_error': len(res['outs']),
+             'batches_of_the_complete_run': len(ref_outs), 'shards': case['K']})
+  if fired and len(ctx.samples) < 6:
+    ctx.sample({'case': case, 'delivered_after_error': repr(res['aggs'])[:160]})
+
+
 def run_chunk(ctx, spec):
   if 'fidelity' in spec:
     run_fidelity(ctx, spec['fidelity'])
@@ -639,10 +822,25 @@ def run_chunk(ctx, spec):
       check_strict_counts(ctx, pspec, case)
   # (separate generator: the cases above stay what they were)
   rng2 = random.Random(spec['rseed'] * 1000003 + spec['chunk'] * 13 + 7)
+  # (third generator: the cases of rng / rng2 stay what they were)
+  rng3 = random.Random(spec['rseed'] * 1000003 + spec['chunk'] * 13 + 11)
+  forced = False
   for i in range(max(1, spec['n'] // 5)):
-    run_concurrent_case(ctx, gen_concurrent_case(rng2))
+    ccase = gen_concurrent_case(rng2)
+    # every chunk has at least one two-pool case with differing settings
+    ccase = add_differing_setting(ccase, rng3, force=not forced)
+    forced = forced or bool(ccase.get('setting'))
+    run_concurrent_case(ctx, ccase)
+  if not forced:
+    ccase = gen_concurrent_case(rng3)
+    ccase.update(one_pool=False)
+    if not set(ccase['members'][0]) & set(ccase['members'][1]):
+      ccase['members'][1] = sorted(set(ccase['members'][1]) | {ccase['members'][0][0]})
+    run_concurrent_case(ctx, add_differing_setting(ccase, rng3, force=True))
   for i in range(max(1, spec['n'] // 8)):
     run_xagg_case(ctx, gen_xagg_case(rng2))
+  for i in range(max(2, spec['n'] // 13)):
+    run_failing_shard_case(ctx, gen_failing_shard_case(rng3))
   ctx.count('transport_calls', sum(1 for e in courier.sim.call_log if e['ev'] == 'call'))
 
 
@@ -655,5 +853,7 @@ def run_case(ctx, case):
     run_concurrent_case(ctx, case)
   elif case.get('driver') == 'xagg':
     run_xagg_case(ctx, case)
+  elif case.get('driver') == 'failing_shard':
+    run_failing_shard_case(ctx, case)
   else:
     run_case_spec(ctx, case)
